@@ -6,6 +6,7 @@ CONSTANTS
  HashSession = TRUE
  HashId = TRUE
  DedupMode = "none"
+ AllowRelay = TRUE
  MCCfgs <- Cfg3
  Bodies = {x, y}
  MaxFSig = 99
